@@ -433,6 +433,12 @@ def exec_step(step, sess, chains, audit):
                 obs['decoy_built'] = True
             except Exception as e:
                 obs['decoy_built'] = False       # (e.g. a dtype no longer fits: not judged)
+            # ... and the caller goes on using ITS parameters dict for the next helper: new values under the same keys
+            for k_ in list(params):
+                try:
+                    params[k_] = _other(params[k_])
+                except Exception:
+                    pass
             if step['decoy'] == 'and_real_chain':
                 make_config(real_chain_root, sess).chain() if (real_chain_root := step.get('real_root')) else None
         if helper is not None:
